@@ -12,14 +12,14 @@
 #define EL_WL_KEYS_MSG
 #define EL_WL_TWEAKED_PRIVKEY
 #define EL_NONCE_RFC6979
-#define EL_NONCE_BUDGET 8
+#define EL_NONCE_BUDGET 4
 #define EL_BORROMEAN_SIGN
 #define EL_BORROMEAN_SIGN_RELAXED
 #include "assumed_elements.h"
 #include "src/secp256k1.c"
 #include "post.h"
 #define MAXN 300
-#define SB 3
+#define SB 1
 
 void h_wl_sign(void) {
     secp256k1_context ctx;
@@ -54,7 +54,7 @@ void h_wl_sign(void) {
             __CPROVER_assert(g_bs_nrings == 1 && g_bs_rsize0 == n_keys && g_bs_secidx0 == index && g_bs_mlen == 32 && SC_EQ(g_bs_sec, g_tp_skey), "C16 sign: one ring of n_keys signed at position index with the computed signing key");
             if (gk < 32) __CPROVER_assert(g_bs_m_k == g_ck_msg_k, "C16 sign: the signed message is the key-list commitment");
         }
-        if (ret == 1 && n_keys == SB && index == SB - 1 && g_nf_n == 8) REACH("wl sign largest ring of the bounded stand-in after one retry");
+        if (ret == 1 && n_keys == SB && index == SB - 1 && g_nf_n == 4) REACH("wl sign largest ring of the bounded stand-in after one retry");
         if (ret == 0 && g_bs_n >= 1) REACH("wl sign ring signer failure");
         if (ret == 0 && g_tp_n >= 1 && g_tp_ret == 0) REACH("wl sign refused key");
     } else {
